@@ -105,6 +105,8 @@ OpEval(n, env) ==
         [] n.op = "Add" -> <<Arith(A(1), A(2), LAMBDA a, b : a + b)>>
         [] n.op = "Sub" -> <<Arith(A(1), A(2), LAMBDA a, b : a - b)>>
         [] n.op = "Mul" -> <<Arith(A(1), A(2), LAMBDA a, b : a * b)>>
+        [] n.op = "Div" -> <<IF ~IsErr(A(2)) /\ \E i \in 1..Len(A(2).data) : A(2).data[i] \notin {1, -1} THEN ERR
+                              ELSE Arith(A(1), A(2), LAMBDA a, b : a * b)>>
         [] n.op = "Min" -> <<Arith(A(1), A(2), Min2)>>
         [] n.op = "Max" -> <<Arith(A(1), A(2), Max2)>>
         [] n.op = "Clip" -> <<ClipT(A(1), A(2), A(3), Has(2), Has(3))>>
@@ -145,13 +147,14 @@ EvalModel(m, feed) == LET e == EvalSeq(m.nodes, 1, InitEnv(m.inits) @@ FeedEnv(m
 
 -----------------------------------------------------------------------------
 (* worlds: input signature + three probe feeds each *)
-AllWorlds == {"vec", "sym", "mat", "anon", "r3", "zero"}
+AllWorlds == {"vec", "sym", "mat", "anon", "r3", "zero", "scal"}
 WIns(w) ==
    CASE w = "vec" -> <<InR("x", "in", "f32", <<3>>, ERR), InR("b", "in", "bool", <<>>, ERR)>>
      [] w = "sym" -> <<InR("x", "in", "f32", <<SymN>>, ERR), InR("b", "in", "bool", <<>>, ERR)>>
      [] w = "mat" -> <<InR("x", "in", "f32", <<2, 3>>, ERR)>>
      [] w = "anon" -> <<InR("x", "in", "f32", <<UNK, UNK>>, ERR), InR("y", "in", "f32", <<UNK, UNK>>, ERR)>>
      [] w = "r3" -> <<InR("x", "in", "f32", <<2, 1, 3>>, ERR)>>
+     [] w = "scal" -> <<InR("x", "in", "f32", <<>>, ERR)>>                                                  \* a rank-0 operand
      [] w = "zero" -> <<InR("x", "in", "f32", <<2, 0>>, ERR), InR("y", "in", "f32", <<3, 0>>, ERR)>>      \* empty because of the SECOND axis
 Fd1(x) == [nm \in {"x"} |-> x]
 Fd2(x, n2, v2) == [nm \in {"x", n2} |-> IF nm = "x" THEN x ELSE v2]
@@ -162,6 +165,7 @@ WFeeds(w) ==
      [] w = "anon" -> <<Fd2(T("f32", <<1, 3>>, <<0, 1, -1>>), "y", T("f32", <<3, 1>>, <<2, -2, 0>>)),
                         Fd2(T("f32", <<1, 2>>, <<-3, 5>>), "y", T("f32", <<2, 1>>, <<1, -1>>)),
                         Fd2(T("f32", <<1, 1>>, <<7>>), "y", T("f32", <<1, 1>>, <<-7>>))>>
+     [] w = "scal" -> <<Fd1(FS(0)), Fd1(FS(-3)), Fd1(FS(7))>>
      [] w = "zero" -> LET fd == Fd2(T("f32", <<2, 0>>, <<>>), "y", T("f32", <<3, 0>>, <<>>)) IN <<fd, fd, fd>>
      [] w = "r3" -> <<Fd1(T("f32", <<2, 1, 3>>, <<0, 1, -1, 2, -2, 3>>)), Fd1(T("f32", <<2, 1, 3>>, <<-5, 0, 7, 1, 1, -1>>)), Fd1(T("f32", <<2, 1, 3>>, <<100, -100, 3, 0, 0, 0>>))>>
 NP == 3
@@ -243,13 +247,16 @@ AddTranspose == /\ CanAdd
                       TryAdd(<<>>, <<>>, <<Nd("Transpose", <<a>>, <<vN>>, [NoAt EXCEPT !.perm = p], <<>>)>>)
 \* op(a, constant): <<op, value, kind>>
 BinCMenu0 ==
-   IF Rich THEN {<<op, t, k>> : op \in PickN(9, {"Add", "Sub", "Mul", "Min", "Max"}), t \in PickN(10, {FS(0), FS(1), FS(-1), FS(2), FV(<<0>>), FV(<<1>>)}), k \in PickN(11, CKindsAll)}
-   ELSE {<<"Add", FS(0), "init">>, <<"Add", FS(0), "ovr">>, <<"Mul", FS(1), "cnode">>,
+   IF Rich THEN {<<op, t, k>> : op \in PickN(9, {"Add", "Sub", "Mul", "Div", "Min", "Max"}), t \in PickN(10, {FS(0), FS(1), FS(-1), FS(2), FV(<<0>>), FV(<<1>>)}), k \in PickN(11, CKindsAll)}
+   ELSE {<<"Add", FV(<<0>>), "init">>, <<"Mul", FV(<<1>>), "cnode">>, <<"Sub", FS(0), "init">>, <<"Sub", FV(<<0>>), "cnode">>,
+         <<"Div", FS(1), "init">>, <<"Div", FV(<<1>>), "cnode">>,
+         <<"Add", FS(0), "init">>, <<"Add", FS(0), "ovr">>, <<"Mul", FS(1), "cnode">>,
          <<"Min", FS(1), "init">>, <<"Max", FS(0), "init">>, <<"Max", FS(2), "cnode">>, <<"Mul", FS(2), "iexpr">>, <<"Sub", FS(1), "oexpr">>}
 BinCMenu == PickN(12, BinCMenu0)
 AddBinConst == /\ CanAdd
                /\ \E a \in PrimF, e \in BinCMenu, flip \in BOOLEAN :
-                     /\ flip => (e[1] \in {"Add", "Mul"} /\ Rich)
+                     \* both operand orders; slim menus: for the neutral elements (the no-op rules are commuted), always in world scal
+                     /\ flip => (e[1] \in {"Add", "Mul"} /\ (Rich \/ wd = "scal" \/ e[2] \in {FV(<<0>>), FV(<<1>>)}))
                      /\ LET c == COp(e[3], cN, e[2]) IN AddWith(c, N1(e[1], IF flip THEN <<c.nm, a>> ELSE <<a, c.nm>>, vN))
 AddBin == /\ CanAdd
           /\ \E a \in PrimF, b2 \in (IF Rich THEN AvailF ELSE {"x"}), op \in (IF Rich THEN {"Add", "Mul", "Sub", "Min"} ELSE {"Add"}) :
@@ -393,7 +400,7 @@ InferOut(n, TY(_), CVf(_)) ==
         [] n.op = "Dropout" -> IF Len(n.outs) = 1 THEN R(I(1).dt, s1) ELSE <<[dt |-> I(1).dt, sh |-> s1], [dt |-> "bool", sh |-> s1]>>
         [] n.op = "Cast" -> R(n.at.to, s1)
         [] n.op = "CastLike" -> R(I(2).dt, s1)
-        [] n.op \in {"Add", "Sub", "Mul", "Min", "Max"} -> LET b == BcastSym(s1, I(2).sh) IN IF b = FAILSH THEN <<>> ELSE R(I(1).dt, b)
+        [] n.op \in {"Add", "Sub", "Mul", "Div", "Min", "Max"} -> LET b == BcastSym(s1, I(2).sh) IN IF b = FAILSH THEN <<>> ELSE R(I(1).dt, b)
         [] n.op = "Transpose" -> IF s1 = NOSHP THEN R(I(1).dt, NOSHP) ELSE IF Len(n.at.perm) # Len(s1) THEN <<>>
                                  ELSE R(I(1).dt, [i \in 1..Len(s1) |-> s1[n.at.perm[i] + 1]])
         [] n.op = "Shape" -> R("i64", IF s1 = NOSHP THEN <<UNK>> ELSE <<Len(s1)>>)
@@ -592,8 +599,13 @@ VisitNode(G, k, S, C) ==
              moved == RenAll(br.nodes, 1)
              gh2 == S.ghost \o n.sub[3 - pe.inl].nodes
              cl == ClearUnused([G1 EXCEPT !.nodes = Splice(G1.nodes, k, moved), !.inits = @ \o br.inits], n.ins, C, gh2)
+             \* replace_nodes_and_values: the branch output takes the If output's type / shape where those are known, else keeps its own
+             tyI == [nm \in SeqToSet(n.outs) |->
+                       LET i == CHOOSE i \in 1..Len(n.outs) : n.outs[i] = nm
+                           old == TyGet(S1.ty, nm) new == TyGet(S1.ty, br.outs[i])
+                       IN [dt |-> IF old.dt # "" THEN old.dt ELSE new.dt, sh |-> IF old.sh # NOSHP THEN old.sh ELSE new.sh]] @@ S1.ty
          IN [G |-> cl.G, next |-> k,
-             S |-> Log([S1 EXCEPT !.sym = DropKeys(pe.sym, SeqToSet(n.outs)), !.used = @ \cup pe.used \cup cl.used, !.ghost = gh2], pe.tag \o ":" \o n.outs[1])]
+             S |-> Log([S1 EXCEPT !.sym = DropKeys(pe.sym, SeqToSet(n.outs)), !.used = @ \cup pe.used \cup cl.used, !.ghost = gh2, !.ty = tyI], pe.tag \o ":" \o n.outs[1])]
       ELSE IF foldable /\ ~IsErr(fval) THEN       \* FoldByReference
          LET cl == ClearUnused([G1 EXCEPT !.nodes = Splice(G1.nodes, k, <<>>), !.inits = Append(@, IniR(n.outs[1], fval))], n.ins, C, S.ghost)
          IN [G |-> cl.G, next |-> k,
@@ -633,6 +645,7 @@ Rules(G, k, S, cm, C) ==
                ELSE IF n.op = "Add" /\ Len(n.ins) = 2 /\ ScalarIs(cm, n.ins[2], 0) THEN RHit("add_0", Ident(n.ins[1]), <<>>, 0, OvrU(<<n.ins[2]>>), 0)
                ELSE IF n.op = "Add" /\ Len(n.ins) = 2 /\ ScalarIs(cm, n.ins[1], 0) THEN RHit("add_0_c", Ident(n.ins[2]), <<>>, 0, OvrU(<<n.ins[1]>>), 0)
                ELSE IF n.op = "Sub" /\ Len(n.ins) = 2 /\ ScalarIs(cm, n.ins[2], 0) THEN RHit("sub_0", Ident(n.ins[1]), <<>>, 0, OvrU(<<n.ins[2]>>), 0)
+               ELSE IF n.op = "Div" /\ Len(n.ins) = 2 /\ ScalarIs(cm, n.ins[2], 1) THEN RHit("div_by_1", Ident(n.ins[1]), <<>>, 0, OvrU(<<n.ins[2]>>), 0)
                ELSE NoRule
        \* --- MaterializeReshapeShape
        mat == IF n.op = "Reshape" /\ IsErr(Get(cm, n.ins[2])) /\ TY(o).sh # NOSHP /\ Cardinality({i \in 1..Len(TY(o).sh) : TY(o).sh[i] < 0}) <= 1
@@ -986,7 +999,8 @@ NeverDeviates == stage \in OptStages => st.used = {}
 NeverInlinesIf == stage \in OptStages => \A i \in 1..Len(st.log) : st.log[i] # "PE_If_inline:v5"
 NeverFolds == stage \in OptStages => \A i \in 1..Len(st.log) : st.log[i] # "FoldByReference:c4"
 NeverFuses == stage \in OptStages => \A i \in 1..Len(st.log) : st.log[i] # "Rule:TransposeTranspose:v3"
-QuickWorlds == {"vec", "sym", "mat", "anon", "r3", "zero"}
+QuickWorlds == {"vec", "sym", "mat", "anon", "r3", "zero", "scal"}
+ScalWorld == {"scal"}
 ZeroWorld == {"zero"}
 AnonWorld == {"anon"}
 R3World == {"r3"}
